@@ -51,6 +51,10 @@ def evaluate(case):
     if not isinstance(cites, list):
         res.v("get_citations:not-a-list", type(cites).__name__)
         return res
+    # the same text again with the same tokenizer object and the other option set (how callers compare the two)
+    again = call(get_citations, text, remove_ambiguous=not ra, tokenizer=tk.get((which,))[which])
+    if isinstance(again, Raised):
+        res.v("get_citations:second-call:" + again.bucket(), repr(again))
     hostile = (not text.isascii()) or any(ord(ch) < 32 and ch not in "\n\t" for ch in text) or "_" in text
     resolved = call(resolve_citations, cites)
     id_resolved = False
@@ -128,8 +132,12 @@ def _tagged(draw):
     return draw(st.sampled_from(["", "as provided in ", "See "])) + draw(st.sampled_from([" ", ". ", "; "])).join(parts) + draw(st.sampled_from(["", " the act", "."]))
 
 
+_DEGENERATE = ["", " ", "\n", "1", "§", "Id.", "supra", "v.", "(", ")", "1 U.S. 1", "U.S.", "___", "\x00", "at", "Id. at", "1 U.S.", "U.S. 1", "1 U.S. at",
+               "See", "¶", "&", "<i>", "\ufeff", "\u200b"]
+
+
 def _cases(which, ra):
-    docs = st.one_of(legal.document(hostile=True), legal.document(hostile=True), _raw(), _anytext(), _tagged())
+    docs = st.one_of(legal.document(hostile=True), legal.document(hostile=True), _raw(), _anytext(), _tagged(), st.sampled_from(_DEGENERATE))
     return docs.map(lambda t: {"text": t, "tokenizer": which, "remove_ambiguous": ra})
 
 
